@@ -163,6 +163,18 @@ class SplitStream:
         return "split(%s, %r)@%d" % (fmt(self.src), self.sep, self.pos)
 
 
+class SplitVec:
+    """`s.split(sep).collect::<Vec<_>>()`: the segments from position `pos` on as a sequence whose length is decided by hasseg atoms
+    (a slice pattern of n elements matches iff segment pos+n-1 exists and segment pos+n does not)."""
+    __slots__ = ("st",)
+
+    def __init__(self, st):
+        self.st = st
+
+    def __repr__(self):
+        return "collect(%r)" % (self.st,)
+
+
 class ElemRef:
     """`&mut xs[i]` of a concrete list (concrete_vec mode): reading through it gives the element, `*r = v` stores into the list."""
     __slots__ = ("lst", "idx")
@@ -232,6 +244,8 @@ def term(v):
         return ("stream", v.src, v.pos)
     if isinstance(v, SplitStream):
         return ("splitstream", v.src, ("lit", v.sep), v.pos)
+    if isinstance(v, SplitVec):
+        return ("splitvec", v.st.src, ("lit", v.st.sep), v.st.pos)
     if isinstance(v, MapV):
         return ("map",) + tuple(("tuple", term(k), term(x)) for k, x in v.items)
     if isinstance(v, Iter):
@@ -669,6 +683,15 @@ class Evaluator:
                 return self.compare(op, a.fields[0], b.fields[0])
             ra, rb = (0 if a.name == "None" else 1), (0 if b.name == "None" else 1)
             return {"Lt": ra < rb, "Le": ra <= rb, "Gt": ra > rb, "Ge": ra >= rb}[op]
+        if isinstance(a, tuple) and isinstance(b, tuple) and not isinstance(a, Sym) and not isinstance(b, Sym) and len(a) == len(b) and op in ("Eq", "Ne") \
+                and (self.has_sym(a) or self.has_sym(b)):
+            # component-wise, left to right, as the tuple impls of PartialEq do
+            res = True
+            for x, y in zip(a, b):
+                if not self.compare("Eq", x, y):
+                    res = False
+                    break
+            return res if op == "Eq" else not res
         if isinstance(a, St) and isinstance(b, St) and op in ("Eq", "Ne") and a.ty == b.ty and set(a.f) == set(b.f):
             res = all(self.compare("Eq", a.f[k_], b.f[k_]) for k_ in sorted(a.f))
             return res if op == "Eq" else not res
@@ -815,6 +838,17 @@ class Evaluator:
                 return True
             raise Abort("variant pattern %s on %r" % (name, v))
         if k == "slice":
+            if isinstance(v, SplitVec):
+                b, a, mid = p["before"], p["after"], p.get("mid")
+                if mid is not None or a:
+                    raise Abort("slice pattern with a rest on collected segments")
+                n, st_ = len(b), v.st
+                if n == 0 or not self.split_has(st_, st_.pos + n - 1) or self.split_has(st_, st_.pos + n):
+                    return False
+                for i, s in enumerate(b):
+                    if not self.bind(s, self.split_elem(st_, st_.pos + i), env):
+                        return False
+                return True
             if isinstance(v, list):
                 b, a, mid = p["before"], p["after"], p.get("mid")
                 if mid is None and len(v) != len(b) + len(a):
@@ -833,9 +867,14 @@ class Evaluator:
             if isinstance(v, Sym):
                 n = len(p["before"]) + len(p["after"])
                 exact = p.get("mid") is None
+                if n == 0 and exact:
+                    # `[]` is the emptiness test: the same fact as is_empty() / the first step of an iteration
+                    return not self.path.decide(("nonempty", v.t), [True, False])
                 ok = self.path.decide(("slice-shape", v.t, n, exact), [True, False])
                 if not ok:
                     return False
+                if n >= 1 and self.path.val.get(("nonempty", v.t)) is None:
+                    self.path.val[("nonempty", v.t)] = True       # at least n elements
                 for i, s in enumerate(p["before"]):
                     if not self.bind(s, Sym(("index", v.t, ("lit", i))), env):
                         return False
@@ -1540,7 +1579,21 @@ class Evaluator:
                 return st_
             if name == "clone":
                 return SplitStream(st_.src, st_.sep, st_.pos, st_.limit)
+            if name == "collect" and len(args) == 1 and st_.limit is None:
+                return SplitVec(SplitStream(st_.src, st_.sep, st_.pos, None))
             raise Abort("SplitStream::%s" % name)
+        if isinstance(a0, SplitVec):
+            st_ = a0.st
+            if name in ("as_slice", "deref", "as_ref", "borrow", "clone", "to_vec", "into_boxed_slice") and len(args) == 1:
+                return a0
+            if name in ("iter", "into_iter") and len(args) == 1:
+                return SplitStream(st_.src, st_.sep, st_.pos, None)
+            if name == "is_empty" and len(args) == 1:
+                return False          # a split has at least one segment
+            if name in ("get", "first") and (name == "first" or (len(args) == 2 and isinstance(args[1], int) and not isinstance(args[1], bool))):
+                k_ = st_.pos + (0 if name == "first" else args[1])
+                return V("Some", (self.split_elem(st_, k_),)) if self.split_has(st_, k_) else V("None")
+            raise Abort("SplitVec::%s" % name)
         if isinstance(a0, list) and name in ("try_from", "try_into") and "convert::Try" in base and node is not None and node.get("targs_full"):
             # Vec<T>/slice → [T; N]: succeeds exactly when the length is N (the Vec is handed back otherwise)
             for t_ in node["targs_full"]:
